@@ -4,6 +4,7 @@ CONSTANTS
   Cancellers = {"k1"}
   Periodic = FALSE
   DeleteByName = TRUE
+  ClaimIgnoresCancel = FALSE
   DropOnClaim = FALSE
   MaxRuns = 1
 INVARIANTS TypeOK AtMostOnce NoOverlap NoPanic NoLostRun NotDropped CancelBranchNoRun NameReusable NameSlotUnique SuccessorReachable LockFreeAtEnd
